@@ -1,7 +1,8 @@
 (* Cron: executable model of the cron layer under the scheduler daemon (C09).
    (a) `parse`  = robfig/cron v3.0.1 Parser.Parse for the option set of internal/dag/parser.go:16-18
        (Minute|Hour|Dom|Month|Dow; no descriptors): TZ=/CRON_TZ= prefix incl. its slice panic,
-       strings.Fields, getField/getRange/parseIntOrName/mustParseInt/getBits ported line by line.
+       strings.Fields, getField/getRange/parseIntOrName/mustParseInt/getBits ported line by line;
+       `parse_cron` = the loader's wrapper parseCron (parser.go:20-29), which refuses the panicking shape.
    (b) `matches` = the bit tests of SpecSchedule.Next / dayMatches on a civil time.
    (c) the proleptic Gregorian civil calendar on Z (days_from_civil / civil_from_days, weekday).
    (d) `next`    = SpecSchedule.Next (spec.go:58-176): first matching minute strictly after an instant
@@ -216,6 +217,15 @@ Definition parse (str : string) : pres spec :=
         end
       else parse_fields s 0%Z
   end.
+
+(* internal/dag/parser.go parseCron (since 519d0a6): an expression that is only a zone prefix - no space - is
+   refused with an error before the library, which would slice out of range, sees it.  This is what the loader
+   calls; `parse` above stays the library's behaviour. *)
+Definition parse_cron (str : string) : pres spec :=
+  let s := list_ascii_of_string str in
+  if (has_prefix "TZ=" s || has_prefix "CRON_TZ=" s) &&
+     match index_of_char " "%char s 0 with None => true | Some _ => false end
+  then PErr else parse str.
 
 (* ---------------------------------------------------------------------------------------- *)
 (* civil calendar on Z (proleptic Gregorian), days since 1970-01-01                          *)
